@@ -374,7 +374,7 @@ def fragPuncts : List (List Char) :=
   ["=", "*=", "/=", "%=", "**=", "+=", "-=", "<<=", ">>=", ">>>=", "&=", "^=", "|=", "&&=", "||=", "??=",
    "**", "*", "/", "%", "+", "-", "<<", ">>", ">>>", "<", "<=", ">", ">=", "==", "!=", "===", "!==",
    "&", "^", "|", "&&", "||", "??", "!", "~", "++", "--",
-   "(", ")", "[", "]", ",", ".", "?", ":", ";", "{", "}"].map String.toList
+   "(", ")", "[", "]", ",", ".", "?.", "?", ":", ";", "{", "}"].map String.toList
 
 theorem mem_ext (p : List Char) (c : Char) (u : List Char) (h : p ++ c :: u ∈ puncts) : c ∈ ext p := by
   simp only [ext, List.mem_filterMap]
@@ -384,7 +384,8 @@ theorem mem_ext (p : List Char) (c : Char) (u : List Char) (h : p ++ c :: u ∈ 
   have h2 : p.length < (p ++ c :: u).length := by simp
   simp [h1, h2]
 
-theorem scanPunct_ext (p : List Char) (hp : p ∈ puncts) (hq : p ≠ ['?', '.']) (rest : List Char)
+theorem scanPunct_ext (p : List Char) (hp : p ∈ puncts) (rest : List Char)
+    (hq : p = ['?', '.'] → ∀ c, rest.head? = some c → c.isDigit = false)
     (h : ∀ c, rest.head? = some c → c ∉ ext p) : scanPunct (p ++ rest) = some (p, rest) := by
   have hlen : p.length ≤ 4 ∧ 1 ≤ p.length := by
     have : ∀ q ∈ puncts, q.length ≤ 4 ∧ 1 ≤ q.length := by decide
@@ -393,9 +394,7 @@ theorem scanPunct_ext (p : List Char) (hp : p ∈ puncts) (hq : p ≠ ['?', '.']
   | nil =>
     match p, hp, hq, hlen with
     | [a], hp, _, _ => simp [scanPunct, hp]
-    | [a, b], hp, hq, _ =>
-      have hq' : ¬ (a = '?' ∧ b = '.') := by intro e; exact hq (by rw [e.1, e.2])
-      simp [scanPunct, hp, hq']
+    | [a, b], hp, _, _ => simp [scanPunct, hp]
     | [a, b, c], hp, _, _ => simp [scanPunct, hp]
     | [a, b, c, d], hp, _, _ => simp [scanPunct, hp]
     | [], _, _, hl => simp at hl
@@ -416,13 +415,14 @@ theorem scanPunct_ext (p : List Char) (hp : p ∈ puncts) (hq : p ≠ ['?', '.']
         | nil => simp [scanPunct, hp, h2, h3]
         | cons z r3 => simp [scanPunct, hp, h2, h3, h4]
     | [a, b], hp, hq, _, hno =>
-      have hq' : ¬ (a = '?' ∧ b = '.') := by intro e; exact hq (by rw [e.1, e.2])
+      have hq' : a = '?' → b = '.' → x.isDigit = false := by
+        intro e1 e2; exact hq (by rw [e1, e2]) x rfl
       have h3 := hno []
       have h4 : ∀ y, [a, b, x, y] ∉ puncts := fun y => hno [y]
       simp only [List.cons_append, List.nil_append] at h3 h4 ⊢
       cases r with
-      | nil => simp [scanPunct, hp, h3, hq']
-      | cons y r2 => simp [scanPunct, hp, h3, h4, hq']
+      | nil => simp [scanPunct, hp, h3]; exact hq'
+      | cons y r2 => simp [scanPunct, hp, h3, h4]; exact hq'
     | [a, b, c], hp, _, _, hno =>
       have h4 := hno []
       simp only [List.cons_append, List.nil_append] at h4 ⊢
@@ -431,8 +431,8 @@ theorem scanPunct_ext (p : List Char) (hp : p ∈ puncts) (hq : p ≠ ['?', '.']
     | [], _, _, hl, _ => simp at hl
     | _ :: _ :: _ :: _ :: _ :: _, _, _, hl, _ => simp at hl
 
-theorem fragPuncts_sub (p : List Char) (hp : p ∈ fragPuncts) : p ∈ puncts ∧ p ≠ ['?', '.'] := by
-  have : ∀ q ∈ fragPuncts, q ∈ puncts ∧ q ≠ ['?', '.'] := by decide
+theorem fragPuncts_sub (p : List Char) (hp : p ∈ fragPuncts) : p ∈ puncts := by
+  have : ∀ q ∈ fragPuncts, q ∈ puncts := by decide
   exact this p hp
 
 end Verif.Proofs.C09JsScan
